@@ -57,7 +57,8 @@ and then run against the quick tier of **all twenty** checks (`tools/benignlab.s
 raises an alarm on one of them either depends on an unspecified detail (a false alarm: the check is
 corrected) or the change does break a property after all (then it is a seeded change, not a benign
 one). Kept under `/verif/benign/<id>/`. After the last strengthening of the checks all eighty were run once more against the
-final checks (`out/benignfinal*.tsv`): seventy-nine raise nothing, `C01-b1` is reported by C03 (see its verdict).
+final checks (`out/benignfinal*.tsv`; and, after the very last changes, against the six checks those touched, `out/benignfinalB*.tsv`):
+seventy-nine raise nothing, `C01-b1` is reported by C03 (see its verdict).
 
 {chr(10).join(brow)}
 
